@@ -30,7 +30,7 @@ fn line_no(r: &mut Rng, u: &Universe) -> String {
 }
 const MESSAGES: &[&str] = &[
     "boom", "Crash: again", "Caused by: inner", "at x.y(z:1)", "with  spaces", "é ü", "a: b: c", "(", ")", ":",
-    "msg\u{a0}", "\u{2003}m",
+    "msg\u{a0}", "\u{2003}m", "😀 boom", "a\u{2028}b", "x\u{85}",
 ];
 
 /// arbitrary trace-like text (C07)
